@@ -227,7 +227,10 @@ fn optimal_breaks() {
     let params = Params::plain_tex_defaults();
     let mut params2 = Params::plain_tex_defaults();
     params2.adj_demerits = 3000; params2.line_penalty = 50;
-    let mut params3 = Params::plain_tex_defaults(); params3.looseness = 1;
+    // plain TeX has \\hyphenpenalty = \\exhyphenpenalty = 50; which of the two a discretionary is charged (TeX.2021.869: the
+    // pre-break list alone decides) only shows when they differ
+    params2.hyphen_penalty = 120; params2.ex_hyphen_penalty = 30;
+    let mut params3 = Params::plain_tex_defaults(); params3.looseness = 1; params3.hyphen_penalty = 10000;
     let mut params4 = Params::plain_tex_defaults(); params4.looseness = -1;
     // separators between two boxes: (nodes, ..)
     let seps: Vec<Vec<ds::Horizontal>> = vec![
@@ -253,6 +256,8 @@ fn optimal_breaks() {
         vec![disc(0, 0, 0), glue(1, 1, GlueOrder::Normal, 1)],
         vec![disc(1, 1, 0)],
         vec![disc(1, 1, 1), hbox(1)],
+        // empty pre-break list but a post-break box: still an EXPLICIT hyphen (\\exhyphenpenalty)
+        vec![disc(0, 1, 0)],
     ];
     let boxes = [2, 3, 5];
     let mut stats = [0u64; 4];
@@ -271,16 +276,23 @@ fn optimal_breaks() {
                 list.push(hbox(boxes[b % boxes.len()])); b /= boxes.len();
                 if k + 1 < n { list.extend(seps[s % seps.len()].iter().cloned()); s /= seps.len(); }
             }
-            // TeX.2021.816: the paragraph ends with \penalty10000 \parfillskip
-            list.push(pen(10000));
-            list.push(glue(0, 1, GlueOrder::Fil, 0));
-            for widths in [&[6][..], &[8][..], &[5, 9][..], &[11][..]] { for tol in [200, 10000, 20000] {
-                for p in [&params, &params2] {
-                    if !check(&list, widths, tol, p, &mut stats) { return; }
-                }
-                // \\looseness +-1 on a sixth of the paragraphs
-                if (bi + si) % 6 == 0 { for p in [&params3, &params4] { if !check(&list, widths, tol, p, &mut stats) { return; } } }
-            } }
+            // TeX.2021.816: the paragraph ends with \\penalty10000 \\parfillskip; on a sixth of the paragraphs also with a FINITE
+            // \\parfillskip, so that the last line has a fitness class of its own and the final candidates differ in it
+            // (TeX.2021.874-875 chooses among them by total demerits)
+            let sixth = (bi + si) % 6 == 0;
+            for finite_end in [false, true] {
+                if finite_end && !sixth { continue; }
+                let mut list = list.clone();
+                list.push(pen(10000));
+                list.push(if finite_end { glue(0, 3, GlueOrder::Normal, 0) } else { glue(0, 1, GlueOrder::Fil, 0) });
+                for widths in [&[6][..], &[8][..], &[5, 9][..], &[11][..]] { for tol in [200, 10000, 20000] {
+                    for p in [&params, &params2] {
+                        if !check(&list, widths, tol, p, &mut stats) { return; }
+                    }
+                    // \\looseness +-1 on a sixth of the paragraphs
+                    if sixth { for p in [&params3, &params4] { if !check(&list, widths, tol, p, &mut stats) { return; } } }
+                } }
+            }
         } }
     }
     println!("STATS {{\"driver\": \"kp_search\", \"paragraphs_checked\": {}, \"no_solution\": {}, \"solutions_compared\": {}, \"non_monotone_skipped\": {}}}", stats[0], stats[1], stats[2], stats[3]);
